@@ -134,5 +134,11 @@ m("cd9-open-steps-over-short-tail",["C11","C02"],"datafile/data_file.go",
   "\treturn &DataFile{\n\t\tID:            id,\n\t\tReadWriter:    readWriter,\n\t\tlastBlockID:   uint32(size / blockSize),\n\t\tlastBlockSize: uint32(size % blockSize),\n",
   "\tlastBlockID, lastBlockSize := uint32(size/blockSize), uint32(size%blockSize)\n\tif lastBlockSize+chunkHeaderSize >= blockSize {\n\t\tlastBlockID += 1\n\t\tlastBlockSize = 0\n\t}\n\treturn &DataFile{\n\t\tID:            id,\n\t\tReadWriter:    readWriter,\n\t\tlastBlockID:   lastBlockID,\n\t\tlastBlockSize: lastBlockSize,\n",
   "CD9","open-cursor:datafile.OpenFile","cursor moved past an unpadded block tail at open: logical size != physical size (seeded C11-G)")
+# union props with what a WRITE_PROPS=1 corpus run recorded earlier
+try:
+    old={m['id']:m for m in json.load(open('/verif/mutants/c_round3.json'))}
+    for m in M:
+        if m['id'] in old: m['props']=sorted(set(m['props'])|set(old[m['id']]['props']))
+except Exception: pass
 json.dump(M,open('/verif/mutants/c_round3.json','w'),indent=1,ensure_ascii=False)
 print(len(M))
